@@ -13,7 +13,11 @@ func c18NewBuffer() SerializeBuffer {
 	return NewSerializeBufferExpectedSize(hp, ha)
 }
 
-func c18Steps(k int) {
+func c18Steps(k int) { c18StepsSized(k, false) }
+
+// enumSizes: the requested sizes are enumerated (0..3) instead of symbolic, so
+// that all offsets are concrete; contents and constructor hints stay symbolic.
+func c18StepsSized(k int, enumSizes bool) {
 	w := c18NewBuffer()
 	var ref []byte
 	verifAssert(len(w.Bytes()) == 0, "new buffer is empty")
@@ -21,7 +25,12 @@ func c18Steps(k int) {
 		op := verifChoose(3)
 		switch op {
 		case 0, 1:
-			num := verifInt("num", 0, 3)
+			var num int
+			if enumSizes {
+				num = verifChoose(4)
+			} else {
+				num = verifInt("num", 0, 3)
+			}
 			var b []byte
 			var err error
 			if op == 0 {
@@ -59,7 +68,7 @@ func c18Steps(k int) {
 
 func verif_C18_seq2() { c18Steps(2) }
 func verif_C18_seq3() { c18Steps(3) }
-func verif_C18_seq4() { c18Steps(4) }
+func verif_C18_seq4() { c18StepsSized(4, true) }
 
 // the returned slice is a window onto the contents: a write made through it
 // after the call is visible through Bytes() at the right position.
